@@ -173,8 +173,8 @@ func pinnedCases() []*Case {
 		pin(`{! -}`, nil, nil),
 		pin(`{! 1 + !}`, nil, nil),
 		// guards that exist today and must keep holding
-		pin(`{@for a 1 b}`, nil, nil),           // iteration cap: returns <INF>
-		pin(`{@range 0 10 0}`, nil, nil),        // <VALUE>
+		pin(`{@for a 1 b}`, nil, nil),             // iteration cap: returns <INF>
+		pin(`{@range 0 10 0}`, nil, nil),          // <VALUE>
 		pin(`{bucket {0} 0}`, []string{"5"}, nil), // <VALUE> at compile time
 		pin(`{@map {0} {k}}{@filter {0} {k}}{@reduce {0} {k}}`, []string{"a\x00b"}, k),
 		pin(`{substr {0} -5 2}{substr {0} 9 9}{substr {0} 2 -1}`, []string{"abc"}, nil),
